@@ -51,6 +51,7 @@ class Terms:
     def __init__(self, fn, cap=None):
         self.fn, self.cap = fn, cap
         self.ndefs, self.init = {}, {}
+        self.unsigned = set()       # atoms of unsigned integer type (their value is >= 0)
         for b in fn.blocks.values():
             for ev in b["ev"]:
                 if ev.get("e") == "decl":
@@ -75,6 +76,13 @@ class Terms:
         return self.ndefs.get(name) == 1 and self.init.get(name) is not None
 
     def lin(self, t, expand=True, depth=0):
+        d = self._lin(t, expand, depth)
+        t = E.strip(t)
+        if len(d) == 1 and d.get(E.key(t)) == 1 and t.get("iw", 0) > 1 and t.get("k") in ("ref", "mem", "call"):
+            self.unsigned.add(E.key(t))
+        return d
+
+    def _lin(self, t, expand=True, depth=0):
         c = E.const(t)
         t = E.strip(t)
         if not isinstance(t, dict):
@@ -136,12 +144,19 @@ def fact_atoms(T, t):
 
 def orderings(T, site, a, b):
     """(orderings of a ? b that the must-facts at `site` still allow, facts about the same quantities that are not understood).
-    A fact `l < r` / `l == r` / truthiness of x is about the pair when its difference form l - r is +-(a - b)."""
+    With v = a - b, a fact `l < r` / `l == r` / truthiness of x is about the pair when its difference form l - r is +-v + constant; the facts
+    then bound v by an interval (plus excluded points), from which the possible signs of v are read."""
     diff = add(a, b, -1)
-    neg = add({}, diff, -1)
-    allowed, foreign = set(ALL), []
-    if not diff:
-        return {"="}, foreign
+    var = {k: c for k, c in diff.items() if k}
+    foreign = []
+    if not var:
+        c = diff.get("", 0)
+        return {"<" if c < 0 else ">" if c > 0 else "="}, foreign
+    lo = hi = None
+    ne = set()
+    if len(var) == 1 and next(iter(var)) in T.unsigned and abs(next(iter(var.values()))) == 1:
+        # a - b is +-(unsigned quantity) + constant
+        lo, hi = (diff.get("", 0), None) if next(iter(var.values())) == 1 else (None, diff.get("", 0))
     for f in site.facts:
         if f[0] != "A":
             continue
@@ -154,21 +169,76 @@ def orderings(T, site, a, b):
             else:
                 op, d = "!=", T.lin(t)
         except Unrec:
-            if set(diff) - {""} <= fact_atoms(T, t):
+            if set(var) <= fact_atoms(T, t):
                 foreign.append(f[1])
             continue
-        if d == diff or d == neg:
-            if op == "==":
-                sel = {"="} if v else {"<", ">"}
-            elif op == "!=":
-                sel = {"<", ">"} if v else {"="}
+        dv = {k: c for k, c in d.items() if k}
+        sign = 1 if dv == var else -1 if dv == {k: -c for k, c in var.items()} else 0
+        if not sign:
+            if set(dv) == set(var):
+                foreign.append(f[1])        # same quantities with other coefficients: not decided here
+            continue
+        # the fact reads  sign * v + k  op  0   with  v = a - b - diff[""]  shifted so that v itself is a - b
+        k = d.get("", 0) - sign * diff.get("", 0)
+        if op == "<":
+            # sign*v + k < 0
+            if sign == 1:
+                lo, hi = (lo, _min(hi, -k - 1)) if v else (_max(lo, -k), hi)
             else:
-                lt = "<" if d == diff else ">"
-                sel = {lt} if v else ALL - {lt}
-            allowed &= sel
-        elif set(d) - {""} == set(diff) - {""}:
-            foreign.append(f[1])        # same quantities, other coefficients/constant: not decided here
+                lo, hi = (_max(lo, k + 1), hi) if v else (lo, _min(hi, k))
+        else:
+            point = -k if sign == 1 else k
+            if (op == "==") == bool(v):
+                lo, hi = _max(lo, point), _min(hi, point)
+            else:
+                ne.add(point)
+    allowed = set()
+    if lo is None or lo <= -1:
+        allowed.add("<")
+    if (lo is None or lo <= 0) and (hi is None or hi >= 0) and 0 not in ne:
+        allowed.add("=")
+    if hi is None or hi >= 1:
+        allowed.add(">")
+    if lo is not None and hi is not None and lo > hi:
+        allowed = set()
     return allowed, foreign
+
+
+def _min(a, b):
+    return b if a is None else min(a, b)
+
+
+def _max(a, b):
+    return b if a is None else max(a, b)
+
+
+class _Edge:
+    """the leaves implied by one CFG edge, presented like a site to orderings()"""
+
+    def __init__(self, imp):
+        self.flow = self
+        self.trees = {i: t for i, (t, v) in enumerate(imp)}
+        self.facts = {("A", i, v) for i, (t, v) in enumerate(imp)}
+
+
+def track_orderings(T, pairs):
+    """flow hooks (on_edge, on_event) that remember path-sensitively what the last branch testing each named pair (a, b) implied:
+    site.env['%o:name'] is a string over '<=>' (absent: never tested on this path, or an operand was assigned since)"""
+    forms = {name: (T.form(a), T.form(b)) for name, (a, b) in pairs.items()}
+    base = {name: orderings(T, _Edge([]), a, b)[0] for name, (a, b) in forms.items()}
+
+    def on_edge(blk, lab, imp, env2, f2):
+        for name, (a, b) in forms.items():
+            allowed = orderings(T, _Edge(imp), a, b)[0]
+            if allowed != base[name]:
+                env2["%o:" + name] = "".join(sorted(allowed))
+
+    def on_event(ev, env, facts):
+        tgt = ev.get("d") if ev.get("e") == "decl" else E.key(ev.get("lhs")) if ev.get("e") == "asg" else None
+        for name, (a, b) in forms.items():
+            if tgt is not None and (tgt in a or tgt in b):
+                env.pop("%o:" + name, None)
+    return on_edge, on_event
 
 
 def gate(ck, rule, T, fl, pred, a, b, want, name, min_sites=1, why="", absent="violation", only=None):
